@@ -70,6 +70,10 @@ enum Mutator {
     SwapEnds,
     SwapScript,
     CloneDropHandle,
+    /// two threads push one element each while exactly one slot is free
+    TwoPushers,
+    /// two threads swap overlapping pairs many times
+    TwoSwappers,
 }
 
 #[derive(Clone, Copy, Debug, PartialEq)]
@@ -86,10 +90,12 @@ enum Reader {
     LenRust,
     LenScript,
     ContainsMissingRust,
+    ToVecRust,
+    IsEmptyRust,
 }
 
-const MUTATORS: [Mutator; 6] = [Mutator::PushRust, Mutator::PushScript, Mutator::PushTwice, Mutator::SwapEnds, Mutator::SwapScript, Mutator::CloneDropHandle];
-const READERS: [Reader; 12] = [
+const MUTATORS: [Mutator; 8] = [Mutator::PushRust, Mutator::PushScript, Mutator::PushTwice, Mutator::SwapEnds, Mutator::SwapScript, Mutator::CloneDropHandle, Mutator::TwoPushers, Mutator::TwoSwappers];
+const READERS: [Reader; 14] = [
     Reader::EqRustAB,
     Reader::EqRustBA,
     Reader::EqScriptAB,
@@ -102,6 +108,8 @@ const READERS: [Reader; 12] = [
     Reader::LenRust,
     Reader::LenScript,
     Reader::ContainsMissingRust,
+    Reader::ToVecRust,
+    Reader::IsEmptyRust,
 ];
 
 struct Cfg {
@@ -149,6 +157,20 @@ fn mk_list(n: usize) -> L {
     l
 }
 
+/// a list of at least `n` elements with exactly `free` unused slots in its buffer
+fn mk_list_free(n: usize, free: usize) -> L {
+    let l: L = List::new();
+    let mut k = 0;
+    while k < n + 4096 {
+        l.push(Val(Tr::new(k.min(n.saturating_sub(1)) as i32)));
+        k += 1;
+        if k >= n && l.capacity() - l.len() == free {
+            break;
+        }
+    }
+    l
+}
+
 fn gate(g: &AtomicUsize, parties: usize) {
     g.fetch_add(1, Ordering::SeqCst);
     let mut spins = 0u32;
@@ -172,17 +194,19 @@ pub fn run(fns: &Arc<StressFns>, ctl: &[u8], render: bool) -> Outcome {
     let mut fail: Option<(String, String)> = None;
     let t0 = std::time::Instant::now();
     for round in 0..cfg.rounds {
-        let a = mk_list(cfg.n);
+        let a = if cfg.mutator == Mutator::TwoPushers { mk_list_free(cfg.n, 1) } else { mk_list(cfg.n) };
         let b = mk_list(cfg.n);
         let len0 = a.len();
+        let blen0 = b.len();
         let last_tag = (cfg.n - 1) as i32;
         let g = Arc::new(AtomicUsize::new(0));
-        let parties = 1 + cfg.readers.len();
+        let n_mut = if matches!(cfg.mutator, Mutator::TwoPushers | Mutator::TwoSwappers) { 2 } else { 1 };
+        let parties = n_mut + cfg.readers.len();
         let mut spans: Vec<(u128, u128)> = Vec::new();
         let mut errs: Vec<String> = Vec::new();
         std::thread::scope(|s| {
             let mut hs = Vec::new();
-            {
+            for mi in 0..n_mut {
                 let (a, g, fns) = (a.clone(), g.clone(), fns.clone());
                 let m = cfg.mutator;
                 hs.push(s.spawn(move || -> Result<(u128, u128), String> {
@@ -202,6 +226,19 @@ pub fn run(fns: &Arc<StressFns>, ctl: &[u8], render: bool) -> Outcome {
                         Mutator::CloneDropHandle => {
                             let c = a.clone();
                             drop(c);
+                        }
+                        Mutator::TwoPushers => {
+                            drop(x2);
+                            a.push(x1);
+                        }
+                        Mutator::TwoSwappers => {
+                            // overlapping pairs: (0,1) against (1,2); without a lock around the whole swap
+                            // elements get duplicated or lost
+                            if len0 >= 3 {
+                                for _ in 0..200 {
+                                    a.swap(mi, mi + 1);
+                                }
+                            }
                         }
                     }
                     Ok((st, t0.elapsed().as_nanos()))
@@ -260,6 +297,17 @@ pub fn run(fns: &Arc<StressFns>, ctl: &[u8], render: bool) -> Outcome {
                         Reader::ContainsMissingRust => {
                             if a.contains(&missing) { Err("contains(value never inserted) returned true".into()) } else { Ok(()) }
                         }
+                        Reader::ToVecRust => {
+                            let v = a.to_vec();
+                            // every element of the snapshot is one that was in the list at some point
+                            for x in &v {
+                                x.0.touch("element of to_vec()");
+                            }
+                            if v.len() >= len0 && v.len() <= len0 + 2 { Ok(()) } else { Err(format!("to_vec() has {} elements for a list of {len0} elements with at most 2 pushes", v.len())) }
+                        }
+                        Reader::IsEmptyRust => {
+                            if a.is_empty() && len0 > 0 { Err("is_empty() on a non-empty list".into()) } else { Ok(()) }
+                        }
                     };
                     res.map(|_| (st, t0.elapsed().as_nanos())).map_err(|e| format!("{r:?}: {e}"))
                 }));
@@ -279,14 +327,33 @@ pub fn run(fns: &Arc<StressFns>, ctl: &[u8], render: bool) -> Outcome {
         // final state of a: the original elements (ends possibly swapped) followed by the pushed ones
         let pushes = match cfg.mutator {
             Mutator::PushRust | Mutator::PushScript => 1,
-            Mutator::PushTwice => 2,
+            Mutator::PushTwice | Mutator::TwoPushers => 2,
             _ => 0,
         };
+        if errs.is_empty() && a.capacity() < a.len() {
+            errs.push(format!("after the round len() = {} exceeds capacity() = {}", a.len(), a.capacity()));
+        }
+        if errs.is_empty() {
+            // the elements are a permutation of the original ones followed by the pushed ones
+            let mut tags: Vec<i64> = (0..a.len()).filter_map(|i| a.get(i)).map(|x| { x.0.touch("element after the round"); x.0.tag }).collect();
+            let mut want: Vec<i64> = (0..len0).map(|i| (i.min(cfg.n - 1)) as i64).collect();
+            match cfg.mutator {
+                Mutator::PushRust | Mutator::PushScript => want.push(5000),
+                Mutator::PushTwice => want.extend([5000, 5001]),
+                Mutator::TwoPushers => want.extend([5000, 5000]),
+                _ => {}
+            }
+            tags.sort();
+            want.sort();
+            if tags != want {
+                errs.push(format!("after the round the list holds tags {:?}, expected a permutation of {:?}", &tags[..tags.len().min(12)], &want[..want.len().min(12)]));
+            }
+        }
         if errs.is_empty() && a.len() != len0 + pushes {
             errs.push(format!("after the round the list has {} elements, expected {}", a.len(), len0 + pushes));
         }
-        if errs.is_empty() && b.len() != len0 {
-            errs.push(format!("the untouched list b has {} elements, expected {len0}", b.len()));
+        if errs.is_empty() && b.len() != blen0 {
+            errs.push(format!("the untouched list b has {} elements, expected {blen0}", b.len()));
         }
         drop(a);
         drop(b);
